@@ -113,6 +113,11 @@ where
 
     /// Await this task until it is ready and we've received the result.
     pub async fn ready(&self) -> T {
+        // Register for the "ready" signal _before_ checking the result slot: `notify_waiters` only
+        // reaches `Notified` futures which already exist. Creating it after the check would lose
+        // the wake-up if the task gets marked as done in between.
+        let notified = self.ready_signal.notified();
+
         // Check if an result already exists and return it directly.
         {
             let ready_result = self.ready_result.lock().await;
@@ -127,7 +132,7 @@ where
         p2panda_net::verif_gate::gate("task_ready_after_check").await;
 
         // If not, we wait until we got notified that an result exists.
-        self.ready_signal.notified().await;
+        notified.await;
 
         let ready_result = self.ready_result.lock().await;
         ready_result
